@@ -21,7 +21,7 @@ namespace {
 
 constexpr int MAXN = 512;  // nodes per case
 constexpr int MAXG = 4;    // guard variables per thread
-constexpr int MAXTH = 16;  // thread programs per case
+constexpr int MAXTH = 16;  // thread programs per case (one extra slot for C17's phase 2)
 constexpr int MAXOPS = 10; // operations per thread
 
 enum OpKind : uint8_t {
@@ -64,11 +64,12 @@ struct Registry {
   int guard[vrt::MAXT][MAXG + 2]; // node id + 1 registered for (thread, guard variable); 0 = none
   bool in_guard_op[vrt::MAXT];
   bool thread_exited_with_pending = false;
+  bool adopted_while_others_live = false;
   bool deleter_under_guard = false;
   bool switch_in_guard_op = false;
   int destroyed_count = 0, retired_count = 0;
   int logical_thread[vrt::MAXT]; // which program a runtime thread executes
-  bool program_done[MAXTH];
+  bool program_done[MAXTH + 1];
   uint64_t hist = 0;
 } R;
 
@@ -156,8 +157,8 @@ struct Client {
 
   CPtr cells[3];
   int ncells = 1;
-  Op progs[MAXTH][MAXOPS];
-  int nops[MAXTH];
+  Op progs[MAXTH + 1][MAXOPS];
+  int nops[MAXTH + 1];
   int nprog = 0;
   bool check_census = false;
 
@@ -239,6 +240,8 @@ struct Client {
   void run_thread(int prog) {
     int me = vrt::self();
     R.logical_thread[me] = prog;
+    const size_t blocks_at_start = vrt::live_blocks(vrt::TAG_DEFAULT);
+    bool first_op_done = false;
     {
       GPtr g[MAXG];
       MPtr last[3];
@@ -371,6 +374,13 @@ struct Client {
           if (depth > 0) reinterpret_cast<RG*>(rgs[--depth].buf)->~RG();
           break;
         default: break;
+        }
+        if (!first_op_done && op.kind != OP_LOAD && op.kind != OP_USE) {
+          first_op_done = true;
+          if (vrt::live_blocks(vrt::TAG_DEFAULT) == blocks_at_start && prog > 1) {
+            vrt::label("thread_record_reused_without_allocation");
+            if (vrt::live_threads() >= 2) R.adopted_while_others_live = true;
+          }
         }
       }
       // protocol: guards and regions are released on their thread before it exits
@@ -543,10 +553,44 @@ struct Client {
       vrt::fail("leak", "%d retired object(s) still not destroyed after all threads exited and the reclaimer was flushed (first: object %d retired by thread %d)",
                 leaked, first_leak, R.nodes[first_leak].retired_by);
     if (handed_over > 0) {
-      vrt::nontrivial();
+      if (c02) vrt::nontrivial();
       vrt::label("handed_over");
     }
     if (R.retired_count > 0) vrt::label("some_object_retired");
+    if (!c17) return;
+
+    // ---- C17: bookkeeping is recycled.  Phase 2: identical threads strictly one after the other; every one of
+    // them must be served by a recycled thread record, so the number of live bookkeeping blocks (neither client
+    // nodes nor harness memory) must stay flat once the recycled record has reached its full size.
+    const int K2 = 5;
+    size_t blocks[K2 + 1];
+    blocks[0] = vrt::live_blocks(vrt::TAG_DEFAULT);
+    int extra = nprog; // program slot used by the phase-2 threads
+    nops[extra] = 4;
+    progs[extra][0] = Op{OP_PUBLISH, 0, 0, 0};
+    progs[extra][1] = Op{OP_ACQUIRE, 0, 0, 1};
+    progs[extra][2] = Op{OP_USE, 0, 0, 0};
+    progs[extra][3] = Op{OP_PUBLISH, 0, 0, 1};
+    static Arg arg2;
+    arg2 = Arg{this, extra};
+    for (int k = 1; k <= K2; ++k) {
+      int t = vrt::spawn([](void* a) { static_cast<Arg*>(a)->c->run_thread(static_cast<Arg*>(a)->p); }, &arg2);
+      vrt::join(t);
+      flush();
+      blocks[k] = vrt::live_blocks(vrt::TAG_DEFAULT);
+    }
+    for (int id = 0; id < R.n_nodes; ++id)
+      if (!R.nodes[id].dummy && R.nodes[id].retired && !R.nodes[id].destroyed)
+        vrt::fail("leak", "object %d retired by a later thread generation was not destroyed after the flush", id);
+    if (blocks[K2] != blocks[2] || blocks[K2 - 1] != blocks[2])
+      vrt::fail("bookkeeping_growth",
+                "live reclaimer bookkeeping blocks keep growing with sequential thread generations: %zu after phase 1, then %zu %zu %zu %zu %zu",
+                blocks[0], blocks[1], blocks[2], blocks[3], blocks[4], blocks[5]);
+    size_t bound = 8 + 6 * (size_t)(peak_live + 1);
+    if (blocks[K2] > bound)
+      vrt::fail("bookkeeping_bound", "%zu live bookkeeping blocks for a peak of %d simultaneously live threads (bound %zu)", blocks[K2], peak_live + 1, bound);
+    vrt::label("sequential_generations_flat");
+    if (R.adopted_while_others_live) vrt::nontrivial();
   }
 };
 
